@@ -403,6 +403,89 @@ def numeric_inverse(rep, fnd, pid, tier):
     rep.count("numeric_inverse_comparisons", n)
 
 
+def reuse_checks(rep, fnd, pid, tier):
+    """C12's statements on results that are KEPT while the same module object is used again (pyramids appended to a list in a
+    loop): layouts, masks and prefixes compared after a later call of the same object on another image."""
+    from .sched import snapshot, fp
+
+    def content(a):          # structure and bytes, without object identities (two results of two module objects)
+        if isinstance(a, torch.Tensor):
+            return ("T", tuple(a.shape), str(a.dtype), fp(a))
+        if isinstance(a, (list, tuple)):
+            return (type(a).__name__, tuple(content(q) for q in a))
+        return repr(a)
+    dwtlib.f64()
+    rng = np.random.default_rng(34500 + seed())
+    n = 0
+    x1, x2 = torch.tensor(rng.standard_normal((1, 2, 16, 12))), torch.tensor(rng.standard_normal((1, 2, 16, 12)))
+    x3 = torch.tensor(rng.standard_normal((2, 1, 10, 14)))
+    for kw in (dict(), dict(o_dim=1, ri_dim=2), dict(skip_hps=[False, True, False]), dict(include_scale=[True, False, True]),
+               dict(include_scale=True, skip_hps=[True, False, False], o_dim=4, ri_dim=0)):
+        m = pw.DTCWTForward(J=3, **kw)
+        cfg = dict(options={k: str(v) for k, v in kw.items()})
+        rep.validated()
+        rep.nontriv(("reuse", repr(sorted(cfg["options"].items()))))
+        n += 1
+        with torch.no_grad():
+            p1 = m(x1)
+            fp1 = snapshot(p1)
+            c1 = content(p1)
+            fresh1 = content(pw.DTCWTForward(J=3, **kw)(x1))
+            m(x2)
+            m(x3)
+        if c1 != fresh1:
+            rep.violation("DTCWTForward(%s): a fresh module object returns something else for the same input" % cfg["options"],
+                          {"api": "DTCWTForward", "check": "reuse", "cfg": cfg})
+        elif snapshot(p1) != fp1:
+            rep.violation("DTCWTForward(%s): the pyramid returned for the first image changed when the same module object was called on "
+                          "other images (its lists / tensors are not the caller's own)" % cfg["options"], {"api": "DTCWTForward", "check": "reuse", "cfg": cfg})
+    rep.count("reuse_cases", n)
+
+
+def absent_batched(rep, fnd, pid, tier):
+    """'Absent = zeros of the right shape' on batched multi-channel pyramids (N = 2, C = 3): every absent pattern (lowpass,
+    each single level, two adjacent levels; given as None, as an empty tensor, as the 0-dim placeholder) against the SAME call
+    with explicit zeros.  Sizes are multiples of 8 so that no level was extended by the forward transform (finding F6c lives
+    where the crop information is lost) and at least one input stays present (a pyramid with nothing in it has no shape)."""
+    import itertools
+    dwtlib.f64()
+    rng = np.random.default_rng(33500 + seed())
+    n = 0
+    pairs = [("near_sym_a", "qshift_a"), ("near_sym_b", "qshift_c")] if tier == "quick" else [(b, q) for b in BIORTS for q in QSHIFTS[1:4]]
+    for (b, q) in pairs:
+        for (H, W, J) in ((16, 24, 3), (8, 16, 2), (16, 8, 1)):
+            with torch.no_grad():
+                yl, yh = pw.DTCWTForward(biort=b, qshift=q, J=J)(torch.zeros(2, 3, H, W))
+            low = torch.tensor(rng.standard_normal(tuple(yl.shape)))
+            his = [torch.tensor(rng.standard_normal(tuple(h.shape))) for h in yh]
+            inv = pw.DTCWTInverse(biort=b, qshift=q)
+            patterns = [("lowpass", [])] + [("", [j]) for j in range(J)] + [("", [j, j + 1]) for j in range(J - 1)] + \
+                       [("lowpass", [j]) for j in range(J - 1)]
+            for (lo_abs, levels), kind in itertools.product(patterns, ("none", "empty", "placeholder")):
+                def absent(t):
+                    return {"none": None, "empty": torch.tensor([], dtype=t.dtype), "placeholder": t.new_zeros([])}[kind]
+                a_low = absent(low) if lo_abs else low
+                a_his = [absent(h) if j in levels else h for j, h in enumerate(his)]
+                z_low = torch.zeros_like(low) if lo_abs else low
+                z_his = [torch.zeros_like(h) if j in levels else h for j, h in enumerate(his)]
+                cfg = dict(biort=b, qshift=q, H=H, W=W, J=J, batch=2, channels=3, lowpass_absent=bool(lo_abs), absent_levels=[j + 1 for j in levels], absent_as=kind)
+                rep.validated()
+                rep.nontriv(("absent_batched", b, q, H, W, J, lo_abs, tuple(levels), kind))
+                n += 1
+                want = inv((z_low, z_his))
+                try:
+                    got = inv((a_low, a_his))
+                except Exception as e:   # noqa
+                    rep.violation("DTCWTInverse raised %r where zeros of the right shape reconstruct, at %s" % (e, cfg),
+                                  {"api": "DTCWTInverse", "check": "absent_batched", "cfg": cfg})
+                    continue
+                if got.shape != want.shape or not float((got - want).abs().max()) <= 1e-12 * (float(want.abs().max()) + 1e-300):
+                    rep.violation("DTCWTInverse with absent inputs differs from the same call with explicit zeros at %s (shape %s vs %s, max deviation %.3g)"
+                                  % (cfg, tuple(got.shape), tuple(want.shape), float((got - want).abs().max()) if got.shape == want.shape else float("nan")),
+                                  {"api": "DTCWTInverse", "check": "absent_batched", "cfg": cfg})
+    rep.count("absent_batched_cases", n)
+
+
 # ------------------------------------------------------------------------------------------
 # options (C12)
 # ------------------------------------------------------------------------------------------
